@@ -133,6 +133,7 @@ func (in *Interp) resetPath(prefix []Decision) {
 	in.steps = 0
 	in.depth = 0
 	in.globals = map[*ssa.Global]*Obj{}
+	in.rwCond = nil
 	in.nextObj = 0
 	in.nextMap = 0
 	in.inputs = nil
